@@ -7,7 +7,10 @@
 (* (ImplOutcome) is NOT used here: any implementation meeting the contract *)
 (* is accepted.                                                            *)
 (*                                                                         *)
-(*   Case(a)                 a new address record (resets the state)       *)
+(*   Case(a, refuse)         a new address record (resets the state);      *)
+(*                           refuse: nothing listens at the expected       *)
+(*                           destination (decoys do), so no connection     *)
+(*                           needs to be observed - but none elsewhere     *)
 (*   Reject                  NewUpstream returned an error                 *)
 (*   Created                 NewUpstream returned an upstream              *)
 (*   Conn(host, port, sni)   one connection / datagram flow it opened:     *)
@@ -18,30 +21,31 @@
 (***************************************************************************)
 EXTENDS Addr, IOUtils
 
-VARIABLES l, nconn
+VARIABLES l, nconn, refuse
 
 Trace == ndJsonDeserialize(IOEnv.TRACE_FILE)
-tvars == <<vars, l, nconn>>
+tvars == <<vars, l, nconn, refuse>>
 
 Ev == Trace[l]
 IsEvent(e) == l <= Len(Trace) /\ Ev.ev = e /\ l' = l + 1
 
-TraceInit == l = 1 /\ nconn = 0 /\ a = (CHOOSE c \in Cases : TRUE) /\ o = Rejected /\ pc = "end"
+TraceInit == l = 1 /\ nconn = 0 /\ refuse = FALSE /\ a = (CHOOSE c \in Cases : TRUE) /\ o = Rejected /\ pc = "end"
 
 Reset ==
     /\ IsEvent("Case")
     /\ IsCase(Ev.a)
     /\ a' = Ev.a /\ o' = Rejected /\ pc' = "new" /\ nconn' = 0
+    /\ refuse' = ("refuse" \in DOMAIN Ev /\ Ev.refuse)
 
 Logged ==
-    \/ IsEvent("Reject") /\ pc = "new" /\ o' = Rejected /\ pc' = "rejected" /\ UNCHANGED <<a, nconn>>
-    \/ IsEvent("Created") /\ pc = "new" /\ pc' = "created" /\ UNCHANGED <<a, o, nconn>>
+    \/ IsEvent("Reject") /\ pc = "new" /\ o' = Rejected /\ pc' = "rejected" /\ UNCHANGED <<a, nconn, refuse>>
+    \/ IsEvent("Created") /\ pc = "new" /\ pc' = "created" /\ UNCHANGED <<a, o, nconn, refuse>>
     \/ IsEvent("Conn") /\ pc \in {"created", "conn"}
          /\ Ev.host \in {"url", "dial", "other"} /\ Ev.sni \in {"url", "dial", "other", "na"}
          /\ Ev.port \in 0..65535
-         /\ o' = Conn(Ev.host, Ev.port, Ev.sni) /\ pc' = "conn" /\ nconn' = nconn + 1 /\ UNCHANGED a
-    \/ IsEvent("Done") /\ pc \in {"created", "conn"} /\ (nconn >= 1 \/ Unasserted(a))
-         /\ pc' = "end" /\ UNCHANGED <<a, o, nconn>>
+         /\ o' = Conn(Ev.host, Ev.port, Ev.sni) /\ pc' = "conn" /\ nconn' = nconn + 1 /\ UNCHANGED <<a, refuse>>
+    \/ IsEvent("Done") /\ pc \in {"created", "conn"} /\ (nconn >= 1 \/ Unasserted(a) \/ refuse)
+         /\ pc' = "end" /\ UNCHANGED <<a, o, nconn, refuse>>
 
 TraceNext == (Reset \/ Logged) /\ C18Inv'
 
